@@ -25,7 +25,7 @@ INFO = dict(
               'and the member that received the request is an Open one with the fewest outstanding among Open members '
               '(or no member is Open). Together with the base case (real constructor + _AddSink + _OpenInitialChannels) '
               'this covers histories of any length within the size bound.',
-  bounds={'quick': 'members N<=6; <=1 member marked down (every position), optional stale removed node in the down queue; outstanding 0..10^6 per member (symbolic); channel state any of 4 per member (symbolic)',
+  bounds={'quick': 'members N<=6; <=1 member marked down (every position; <=2 down, every pair and queue order, for N<=4), optional stale removed node in the down queue; outstanding 0..10^6 per member (symbolic); channel state any of 4 per member (symbolic)',
           'thorough': 'members N<=8; <=2 members marked down (every pair and queue order); otherwise as quick'},
   outside=['more than 8 members / more than 2 simultaneously down members', 'the aperture subclass hooks (covered in C06 harness)',
            'channel state changing in the middle of one dispatch (states are fixed for one operation)'],
@@ -57,7 +57,7 @@ def jobs(tier):
   js.append(dict(name='base', op='base', N=0, down=(), cost=1))
   js.append(dict(name='empty', op='empty', N=0, down=(), cost=1))
   for N in SIZES[tier]:
-    for down in down_configs(N, MAXDOWN[tier]):
+    for down in down_configs(N, max(MAXDOWN[tier], 2 if N <= 4 else 1)):
       stales = [False] if (down and N > 4) else [False, 'head', 'tail']
       for stale in stales:
         tag = 'N%d-d%s%s' % (N, ''.join(map(str, down)) or '0', ('-s' + stale) if stale else '')
